@@ -209,7 +209,7 @@ ADD = {
  "C01": " EXACT coverage (C01_cover_exact): when no input is zero-length the only missing points are the microsecond before a genuine touching point; with a zero-length input this fails (C01_cover_exact_zero_length_refuted, known finding). The constructor is idempotent and the public set-operation results are its fixed points (C01_idempotent, C01_ops_fixed_points)." + KT % ("C01", ", total correctness (it terminates and returns fix_iset, no hypothesis)"),
  "C02": " Wrapper-level endpoint, list-level commutativity and measure theorems (loss at most 1 us per junction); eight Boolean-algebra laws of composed kernels (C02_alg_*: partition, associativity, De Morgan for set_diff, distributivity, symmetric difference, absorption)." + KT % ("C02", ": jitunion, jitunion_isets, jitintersect, jitdiff, total correctness"),
  "C03": " Support, constructor and per-sample composition clauses are theorems too; restrict against union / set_diff, order independence and the counting laws (C03_commute .. C03_inclusion_exclusion) are theorems and are evaluated on the public API." + KT % ("C03", ": jitrestrict, jitrestrict_with_count, jitin_interval, total correctness"),
- "C05": KT % ("C05", ": jitcount and _jitbin_array for EVERY positive bin size (the half-tick comparison was repaired in 4a0e79d; C05_odd_bin_size_refuted is about the frozen old text), total correctness"),
+ "C05": " Conservation of the binned counts (C05_counts_conserved)." + KT % ("C05", ": jitcount and _jitbin_array for EVERY positive bin size (the half-tick comparison was repaired in 4a0e79d; C05_odd_bin_size_refuted is about the frozen old text), total correctness"),
  "C06": " End-to-end and interpolate-slice theorems; self lookup (C06_self_lookup: a query equal to a source timestamp gets that very sample in every mode), also evaluated on the public API." + KT % ("C06", ": jitvaluefrom, no hypothesis, any mode, total correctness"),
  "C07": " Exact hypotheses for dropna (necessary and sufficient) and refutation witnesses for duplicates / 1 ns neighbours; complementary thresholds split the series (C07_complementary_split)." + KT % ("C07", ": jitthreshold and jitremove_nan"),
  "C08": " Composition laws of get(start, end) (C08_get_get, C08_get_commute_idempotent, C08_get_is_restrict) are theorems and are evaluated on the public API.",
